@@ -132,7 +132,7 @@ class Hist:
                     continue
                 flagged = self.text[k][a:b]
                 if flagged in added_now:
-                    twin = any(fold(x) == fold(flagged) and x != flagged for x in added_now)
+                    twin = self.replaced_by_later_variant(flagged, k)
                     if twin:
                         self.finding("added-word-flagged@case-variant-added-too", "%r flagged in %s after %s: another capitalisation of it was added as well" % (flagged, k, why))
                     else:
@@ -143,13 +143,21 @@ class Hist:
                 spelled = [d[4] for d in extra if "spell" in d[4] or "Did you mean" in d[4]]
                 added_flagged = [w for w in self.user + self.filew[k] if any("“%s”" % w in m for m in spelled)]
                 # a word whose case variant was added later is replaced in the dictionary (known: case-folded key)
-                variants = [w for w in added_flagged if any(fold(x) == fold(w) and x != w for x in self.user + self.filew[k])]
+                variants = [w for w in added_flagged if self.replaced_by_later_variant(w, k)]
                 if added_flagged and len(variants) == len(added_flagged) and not missing:
                     self.finding("added-word-flagged@case-variant-added-too", "%r flagged in %s after %s: another capitalisation of it was added as well" % (added_flagged, k, why))
                 elif added_flagged:
                     self.finding("added-word-flagged", "added word(s) %r are reported as misspelt in %s after %s" % (added_flagged, k, why))
                 else:
                     self.finding("other-lints-changed", "diagnostics of %s differ from the reference after %s: extra %r missing %r" % (k, why, extra[:3], missing[:3]))
+
+    def replaced_by_later_variant(self, w, k):
+        """The listed defect: within one dictionary a LATER addition that differs only in capitalisation replaces the
+        earlier spelling. It explains a flagged word only if such a later addition exists in the same dictionary."""
+        for lst in (self.user, self.filew[k]):
+            if w in lst and any(fold(x) == fold(w) and x != w for x in lst[lst.index(w) + 1:]):
+                return True
+        return False
 
     def check_files(self, why):
         s = self.server
@@ -193,8 +201,9 @@ class Hist:
                 n = self.server.n_publishes(uri)
                 self.server.command("HarperAddToUserDict", [w, uri])
                 self.server.pump(lambda: self.server.n_publishes(uri) > n, 30)
-                if w not in self.user:
-                    self.user.append(w)
+                if w in self.user:
+                    self.user.remove(w)  # added again: it is the latest spelling of its case-folded entry now
+                self.user.append(w)
                 self.refresh_all()
             elif r < 0.6:
                 w = rng.choice(WORDS)
@@ -204,8 +213,9 @@ class Hist:
                 n = self.server.n_publishes(uri)
                 self.server.command("HarperAddToFileDict", [w, uri])
                 self.server.pump(lambda: self.server.n_publishes(uri) > n, 30)
-                if w not in self.filew[k]:
-                    self.filew[k].append(w)
+                if w in self.filew[k]:
+                    self.filew[k].remove(w)
+                self.filew[k].append(w)
                 self.refresh_all()
             elif r < 0.85:
                 k = rng.choice(["A", "B", "C", "D", "A", "D"] if "D" in self.text or rng.random() < 0.5 else ["A", "B", "C"])
